@@ -409,7 +409,7 @@ func seedDocs(seed int64, n int) []seedDoc {
 	pol := func(depth int) *cedar.Policy {
 		for {
 			p := g.policy(depth)
-			if strings.HasPrefix(noTextForm(cwf.PolicyToJ(p)), "unknown function") {
+			if noTextForm(cwf.PolicyToJ(p)) != "" {
 				continue
 			}
 			if len(p.Conditions) == 0 {
